@@ -4,3 +4,4 @@ open Amoco.Dis.Props05
 #print axioms length_pos
 #print axioms index_adds_no_tail_dependence
 #print axioms fixed_spec_ignores_tail
+#print axioms no_prefix_isa_determined
